@@ -80,24 +80,31 @@ var c01Shapes = []string{
 var c01Consumers = []string{"r.S", "r.repr", "r == r", "[*r]", "{**r}", "%{**r}", "{|x| \\_}(**r)", "{|x| \\0}(*r)", "r@{|x| x}", "r.keys", "\"#{r}\"", "r.B", "r.A", "r.try.A"}
 
 // c01Arg: a value for one argument position: a symbolic int, a symbolic float, or one of
-// the concrete shapes (solver choice).
-func c01Arg(h *H, symbolic bool) object.PanObject {
-	c := rt.Choice(len(c01Shapes) + 4)
-	switch c {
-	case len(c01Shapes) + 2, len(c01Shapes) + 3:
-		// a range whose bounds are each nil or ANY int64 (always symbolic: built-ins that do not
-		// look at the bounds stay on one path), bare or wrapped in an array (the index form a[r])
+// the concrete shapes (solver choice).  For the indexing built-ins (indexer) the first
+// choices are the index forms with symbolic payloads: [i], [(a:b:c)] and (a:b:c) with i any
+// int64 and each range bound nil or any int64.
+func c01Arg(h *H, symbolic, indexer bool) object.PanObject {
+	extra := 0
+	if indexer {
+		extra = 3
+	}
+	c := rt.Choice(len(c01Shapes)+2+extra) - extra
+	if c < 0 {
 		bound := func() object.PanObject {
 			if rt.Bool() {
 				return object.BuiltInNil
 			}
 			return object.NewPanInt(rt.Int64())
 		}
-		r := object.NewPanRange(bound(), bound(), bound())
-		if c == len(c01Shapes)+3 {
-			return object.NewPanArr(r)
+		switch c {
+		case -3:
+			return object.NewPanArr(object.NewPanInt(rt.Int64()))
+		case -2:
+			return object.NewPanArr(object.NewPanRange(bound(), bound(), bound()))
 		}
-		return r
+		return object.NewPanRange(bound(), bound(), bound())
+	}
+	switch c {
 	case 0:
 		if symbolic {
 			return object.NewPanInt(rt.Int64())
@@ -137,7 +144,7 @@ func H_C01_builtin() {
 	arity := rt.Param(2)
 	args := make([]object.PanObject, arity)
 	for i := range args {
-		args[i] = c01Arg(h, arity <= 1) // scalar payloads are symbolic for arity 0..1, boundary constants for arity 2
+		args[i] = c01Arg(h, arity <= 1, rt.Param(3) == 2 && i == 1) // scalar payloads are symbolic for arity 0..1, boundary constants for arity 2
 		_, isErr := args[i].(*object.PanErr)
 		rt.Assume(!isErr)
 	}
